@@ -356,6 +356,26 @@ def run_sol(case):
     # points inside the film plane are refused rather than answered
     sol.supercurrent_density = own_s * Junit
     sol.normal_current_density = own_n * Junit
+    # the same positions buffer evaluated again after it was updated in place; the buffer itself is never modified
+    buf = np.array(psets["five"][3], float)
+    for shift in ((0.0, 0.0, 0.0), (0.4, -0.3, 0.25), (-1.1, 0.2, 0.5)):
+        buf += np.array(shift) * {"um": 1.0, "nm": 1e3, "mm": 1e-3}[lu]
+        before = buf.copy()
+        wantB = (ref_B(buf * LEN[lu], src_si, own_s * CURR[cu] / LEN[lu], a_si) + ref_B(buf * LEN[lu], src_si, own_n * CURR[cu] / LEN[lu], a_si)) / FU[fu]
+        wantA = (ref_A(buf * LEN[lu], src_si, own_s * CURR[cu] / LEN[lu], a_si) + ref_A(buf * LEN[lu], src_si, own_n * CURR[cu] / LEN[lu], a_si)) / (FU[fu] * LEN[lu])
+        parts = sol.field_at_position(buf, vector=True, units=fu, with_units=False, return_sum=False)
+        gotB = np.asarray(parts.supercurrent) + np.asarray(parts.normal_current)
+        Ap = sol.vector_potential_at_position(buf, units=f"{fu} * {lu}", with_units=False, return_sum=False)
+        gotA = np.asarray(Ap["supercurrent_density"]) + np.asarray(Ap["normal_current_density"])
+        res.count("comparisons", 2)
+        if not np.array_equal(buf, before):
+            res.violate("evaluation-modifies-the-positions", units=fu)
+            break
+        eB = np.abs(gotB - wantB).max() / max(np.abs(wantB).max(), 1e-300)
+        eA = np.abs(gotA - wantA).max() / max(np.abs(wantA).max(), 1e-300)
+        if eB > TOLERANCES["si"] or eA > TOLERANCES["si"]:
+            res.violate("stale-answer-after-positions-updated-in-place", units=fu, detail={"field_rel": float(eB), "potential_rel": float(eA)})
+            break
     res.nontrivial = True
     res.outcome = "sol"
     return res
